@@ -30,7 +30,7 @@ func runC17(c *Ctx) {
 		return
 	}
 	fn, an := c.Analysis(fi)
-	info := fi.Pkg.TypesInfo
+	_ = fi.Pkg.TypesInfo
 	// C17.1 effect whitelist
 	effs := c.G.Effects(fi.Obj)
 	var ks []string
@@ -120,8 +120,8 @@ func runC17(c *Ctx) {
 	// C17.3 orphan propagation
 	c.orphanPolicy(fi, fn, del.Site)
 	// C17.4 create-or-update
-	getStmt := stmt(get)
-	getErr := c.errNonNilAfter(fn, getStmt, get.Top)
+	getStmt := stmtOf(c.hostOf(fi, get.Call).Decl.Body, get.Call)
+	getErr := c.errNonNilAfter(fn, getStmt, get.Call)
 	var getErrID *ast.Ident
 	if as, ok := getStmt.(*ast.AssignStmt); ok {
 		getErrID, _ = as.Lhs[len(as.Lhs)-1].(*ast.Ident)
@@ -132,7 +132,7 @@ func runC17(c *Ctx) {
 		notFound := gf.FBool(gf.CallT("k8s.io/apimachinery/pkg/api/errors.IsNotFound", types.Typ[types.Bool], fn.Term(getErrID)))
 		// analyse from the Get with facts about its error kept alive: use the definition `notFound := IsNotFound(err)` if present
 		var nfVar *ast.Ident
-		ast.Inspect(fi.Decl.Body, func(n ast.Node) bool {
+		ast.Inspect(c.hostOf(fi, get.Call).Decl.Body, func(n ast.Node) bool {
 			if as, ok := n.(*ast.AssignStmt); ok && len(as.Lhs) == 1 && len(as.Rhs) == 1 && as.Pos() > get.Call.Pos() {
 				if fn.Formula(as.Rhs[0]).Key() == notFound.Key() {
 					nfVar, _ = as.Lhs[0].(*ast.Ident)
@@ -160,11 +160,12 @@ func runC17(c *Ctx) {
 	sent := ustatus.Call.Args[1]
 	var copyStmt ast.Node
 	conv, _ := c.P.Lookup(load.HelperPkg, "FromBuiltinStatefulSet").(*types.Func)
-	ast.Inspect(fi.Decl.Body, func(n ast.Node) bool {
+	uhost := c.hostOf(fi, ustatus.Call)
+	ast.Inspect(uhost.Decl.Body, func(n ast.Node) bool {
 		if as, ok := n.(*ast.AssignStmt); ok && len(as.Lhs) == 1 && len(as.Rhs) == 1 {
 			if wt := c.TryWantTerm(fn, as.Pos(), "$1.Status", sent); wt != nil && fn.Term(as.Lhs[0]).Key() == wt.Key() {
 				if rs, ok := as.Rhs[0].(*ast.SelectorExpr); ok && rs.Sel.Name == "Status" {
-					if src := assignedFromCall(fi, info, rs.X); src != nil && gf.StaticCallee(info, src) == conv {
+					if src, sh := c.originCall(uhost, rs.X, 0); src != nil && gf.StaticCallee(sh.Pkg.TypesInfo, src) == conv {
 						copyStmt = as
 					}
 				}
@@ -349,16 +350,16 @@ func (c *Ctx) orphanPolicy(fi *load.FuncInfo, fn *gf.Fn, del *eff.Site) {
 }
 
 func (c *Ctx) specCopied(fi *load.FuncInfo, fn *gf.Fn, conv *types.Func, create, update *eff.Site) {
-	info := fi.Pkg.TypesInfo
-	// Update: X.Spec = <converted>.Spec before the call, X being the object sent
+	// Update: X.Spec = <converted>.Spec before the call, X being the object sent (in the function holding the call)
+	uh := c.hostOf(fi, update.Call)
 	sent := update.Call.Args[1]
 	ok := false
-	ast.Inspect(fi.Decl.Body, func(n ast.Node) bool {
+	ast.Inspect(uh.Decl.Body, func(n ast.Node) bool {
 		if as, isAs := n.(*ast.AssignStmt); isAs && len(as.Lhs) == 1 && len(as.Rhs) == 1 && as.Pos() < update.Call.Pos() {
 			if wt := c.TryWantTerm(fn, as.Pos(), "$1.Spec", sent); wt != nil && fn.Term(as.Lhs[0]).Key() == wt.Key() {
 				if rs, isSel := as.Rhs[0].(*ast.SelectorExpr); isSel && rs.Sel.Name == "Spec" {
-					if src := assignedFromCall(fi, info, rs.X); src != nil && gf.StaticCallee(info, src) == conv {
-						ok = contains(enclosingBlock(fi.Decl.Body, update.Call), as)
+					if src, sh := c.originCall(uh, rs.X, 0); src != nil && gf.StaticCallee(sh.Pkg.TypesInfo, src) == conv {
+						ok = contains(enclosingBlock(uh.Decl.Body, update.Call), as)
 					}
 				}
 			}
@@ -367,11 +368,12 @@ func (c *Ctx) specCopied(fi *load.FuncInfo, fn *gf.Fn, conv *types.Func, create,
 	})
 	c.Check(ok, "C17.4-update-copies-spec", "Upgrade: Update", update.Call.Pos(), "the existing Advanced set gets the built-in set's spec before Update", "the pre-existing Advanced set is updated without the built-in set's spec")
 	// Create: the object sent derives from the converted object (DeepCopy of it)
+	ch := c.hostOf(fi, create.Call)
 	csent := create.Call.Args[1]
 	okc := false
-	if src := assignedFromCallIn(enclosingBlock(fi.Decl.Body, create.Call), info, csent); src != nil {
+	if src := assignedFromCallIn(enclosingBlock(ch.Decl.Body, create.Call), ch.Pkg.TypesInfo, csent); src != nil {
 		if sel, isSel := src.Fun.(*ast.SelectorExpr); isSel && sel.Sel.Name == "DeepCopy" {
-			if s2 := assignedFromCall(fi, info, sel.X); s2 != nil && gf.StaticCallee(info, s2) == conv {
+			if s2, sh := c.originCall(ch, sel.X, 0); s2 != nil && gf.StaticCallee(sh.Pkg.TypesInfo, s2) == conv {
 				okc = true
 			}
 		}
